@@ -263,6 +263,17 @@ def eq_terms(I, a, b, node):
         return z3.And(*parts) if parts else z3.BoolVal(True)
     if ka == 'slist' and kb == 'slist':
         return a.t == b.t
+    if ka == 'mdict' and kb == 'mdict':
+        # the same keys with the same values (entries of absent keys are not observable)
+        kq = z3.Const('k!q', a.t['has'].domain())
+        return z3.And(a.t['has'] == b.t['has'],
+                      z3.ForAll([kq], z3.Implies(z3.Select(a.t['has'], kq),
+                                                 z3.Select(a.t['val'], kq) == z3.Select(b.t['val'], kq)),
+                                patterns=[z3.Select(a.t['val'], kq)]))
+    if ka == 'slist' and kb in ('clist', 'tuple') or kb == 'slist' and ka in ('clist', 'tuple'):
+        from .objects import as_slist
+        sl_, cl_ = (a, b) if ka == 'slist' else (b, a)
+        return sl_.t == as_slist(I, cl_, sl_.extra['elem'], node).t
     if ka == 'ext' and kb == 'ext':
         return z3.BoolVal(a.t == b.t)
     plain = ('int', 'bool', 'real', 'bytes', 'str', 'none')
@@ -332,6 +343,10 @@ def is_terms(I, a, b, node):
         return a.t == b.t
     if ka == 'cls' and kb == 'cls':
         return z3.BoolVal(a.t == b.t)
+    if ka == 'exc' and kb == 'exc':
+        return z3.BoolVal(a.t is b.t or (a.t[0] == b.t[0] and a.t[1] is b.t[1]))
+    if {ka, kb} <= {'exc', 'mobj', 'rec', 'cls', 'func', 'odict', 'mdict'} and ka != kb:
+        return z3.BoolVal(False)          # objects of different kinds of the model are never the same object
     I.oos(node, f"`is` on {ka}/{kb}")
 
 
@@ -347,6 +362,9 @@ def in_terms(I, a, b, node):
     if b.kind == 'cdict':
         parts = [eq_terms(I, a, k, node) for k, _ in b.t]
         return z3.Or(*parts) if parts else z3.BoolVal(False)
+    if b.kind == 'mdict':
+        from .objects import mdict_key
+        return z3.Select(b.t['has'], mdict_key(I, b, a, node))
     if b.kind == 'kmap':
         from .objects import kmap_key_term
         kt = kmap_key_term(I, b, a, node)
